@@ -160,6 +160,9 @@ Proof.
   intro H. specialize (IH H). discriminate.
 Qed.
 
+Lemma wf_head_min_all i l : wf_ients (i :: l) -> Forall (fun j => istart i <= istart j) (i :: l).
+Proof. apply wf_head_min. Qed.
+
 Lemma resort_span_wf name l x mn mx :
   wf_ients l -> pos x -> Forall (disj x) l -> Forall (in_span mn mx) l ->
   resort_span_i name (l ++ [x]) mn mx
